@@ -3,6 +3,7 @@
   c05 range <scale> <tlo> <thi> <v1,v2,…> <levelhex>…   → "<model> <spec>"  (1 accept / 0 reject / parse-error)
   c05 pattern <sat bits e.g. 101 or ->                   → "<model(or)> <spec(and)>"
   c05 bits <declhex: name:pos,…> <nameshex: a b c>       → "<model> <spec>"
+  c05 ident <valuehex> <closurehex: a b c>…              → "ok:<name>" | "err"   (one closure per base)
 -/
 import YangVerif.Model.Range
 import YangVerif.Model.Member
@@ -38,6 +39,13 @@ def handle (toks : List String) : String :=
         | some ns => "ok:" ++ " ".intercalate ns
         | none => "err"
       s!"{r} {r}"
+    | _, _ => "bad-op"
+  | "ident" :: vH :: closuresH =>
+    match unhexStr vH, closuresH.mapM unhexStr with
+    | some v, some cs =>
+      match identByBases (cs.map fun c => (c.splitOn " ").filter (· ≠ "")) v with
+      | some n => "ok:" ++ n
+      | none => "err"
     | _, _ => "bad-op"
   | _ => "bad-op"
 
